@@ -888,7 +888,9 @@ impl Spec {
                                 breach_penalties.push(ptxid);
                                 match self.penalty_verdict(&rpcs, &ptxid, w) {
                                     None => out.push(Viol {
-                                        props: &["C01"],
+                                        // when somebody else holds an appointment on the same commitment, this user's breach going
+                                        // unanswered is also a failure of independence between users (C06)
+                                        props: if self.appts.keys().any(|(u2, k2)| *k2 == k && *u2 != u) || obs.db_before.appointments.values().filter(|r| disp_of_locator_hex(&r.locator) == Some(k)).count() > 1 { &["C01", "C06"] } else { &["C01"] },
                                         sig: "breach-not-answered:in-block".into(),
                                         detail: format!(
                                             "block {h} confirms D{k}; U{u}'s appointment decrypts to {} but the penalty was neither submitted nor known to the node while the block was handled",
